@@ -84,8 +84,10 @@ func TestVerifC17(t *testing.T) {
 			sizes = append(sizes, sz)
 		}
 		r.Set("file_sizes", fmt.Sprint(sizes))
+		eofWithData := tp.Choose(3) == 0
 		r.Set("max_short_read", short)
-		r.CaseKey = fmt.Sprint(sizes, short, pol)
+		r.Set("eof_with_data", eofWithData)
+		r.CaseKey = fmt.Sprint(sizes, short, pol, eofWithData)
 		simrt.Run(r.T, s, 120*time.Second, func() {
 			root := &simfs.Node{Name: "src", Mode: 0o755 | (1 << 31)}
 			for i, c := range contents {
@@ -94,6 +96,7 @@ func TestVerifC17(t *testing.T) {
 			sfs := simfs.New(root)
 			sfs.Park = true
 			sfs.Short = short
+			sfs.EOFWithData = eofWithData
 			sfs.ShortBudget = 300 // then full reads: a megabyte read in single bytes would only repeat the same state
 			saver := &c17Saver{}
 			perFile := make([][][]byte, len(contents))
